@@ -436,6 +436,108 @@ def unit_containers(unit):
                             agg.violation(V("fingerprint.containers", "stale-after-storing-a-changed-object-back", case))
                         else:
                             agg.outcomes["fingerprints-current"] += 1
+    # a nested cell that holds ONE inner object at several places ([pair, pair], [[0, 0]] * 3, a tuple naming a list twice, a dict with
+    # one list under two keys): contents decide, not object identity - the fingerprint equals that of a cell built from equal but
+    # DISTINCT inner objects (deepcopy would keep the sharing, so the twins are written out by hand)
+    def shared_and_distinct():
+        p = [1, 2]
+        yield "list names one list twice", [p, p], [[1, 2], [1, 2]]
+        z = [0, 0]
+        yield "[[0, 0]] * 3", [z] * 3, [[0, 0], [0, 0], [0, 0]]
+        q = [3]
+        yield "tuple names one list twice", (q, q), ([3], [3])
+        r = (1, 2)
+        yield "list names one tuple twice", [r, r, 5], [(1, 2), tuple([1, 2]), 5]
+        d = [9]
+        yield "dict holds one list under two keys", {"a": d, "b": d}, {"a": [9], "b": [9]}
+        e = [4]
+        yield "shared two levels down", [[e], [e]], [[[4]], [[4]]]
+        w = [7, 8]
+        yield "shared with something between", [w, 1, w], [[7, 8], 1, [7, 8]]
+    for label, shared, distinct in shared_and_distinct():
+        for n in (1, 2, 3):
+            for pos in range(n):
+                for through in ("fresh", "vector-write", "column-view-write", "primed-then-write"):
+                    agg.evals += 1; agg.transitions += 2; agg.states += 1; agg.nontrivial += 1; agg.compared += 2
+                    case = {"cell": label, "cell_repr": repr(shared), "length": n, "position": pos, "through": through}
+                    try:
+                        twin = [7] * n
+                        twin[pos] = distinct
+                        want = Vector(list(twin)).fingerprint()
+                        want_t = Table([Vector(list(twin), name="a"), Vector(list(range(n)), name="b")]).fingerprint()
+                        if through == "fresh":
+                            vals = [7] * n
+                            vals[pos] = shared
+                            got = Vector(list(vals)).fingerprint()
+                            got_t = Table([Vector(list(vals), name="a"), Vector(list(range(n)), name="b")]).fingerprint()
+                        else:
+                            vals = [7] * n
+                            vals[pos] = [0]
+                            t = Table([Vector(list(vals), name="a"), Vector(list(range(n)), name="b")])
+                            v = Vector(list(vals)) if through != "column-view-write" else t["a"]
+                            if through == "primed-then-write":
+                                v.fingerprint(); t.fingerprint()
+                            v[pos:pos + 1] = [shared]
+                            got = v.fingerprint()
+                            got_t = t.fingerprint() if through == "column-view-write" else want_t
+                    except Exception as e:
+                        agg.skipped["container-cell-refused-" + type(e).__name__] += 1
+                        continue
+                    if got != want or got_t != want_t:
+                        agg.violation(V("fingerprint.containers", "cell-with-a-repeated-inner-object-differs-from-equal-contents", case))
+                    else:
+                        agg.outcomes["fingerprints-current"] += 1
+    return agg
+
+
+def unit_catalogue(unit):
+    """results of the run-time derivation catalogue (mc/purity.py: copies, fills, casts, slices, sorts, stacking, arithmetic,
+    joins ... on every operand kind and provenance form) taken from an operand whose fingerprint HAS BEEN READ, and cached, before:
+    every vector or table that comes back has the fingerprint of a freshly built object with its contents (nothing cached is
+    handed on to an object with other contents), and the operand's own fingerprint is unchanged by the read-only operation"""
+    from mc import purity
+    _, kind, form, ykind = unit
+    agg = Agg()
+    for label, fn, live in purity.all_derivations(kind, form, ykind):
+        sc = purity.Scenario(kind, form, ykind)
+        primed = {}
+        for nm, o in sc.objects.items():
+            if purity.is_vec(o) and not purity.is_row(o):
+                try:
+                    primed[nm] = o.fingerprint()
+                except Exception:
+                    pass
+        agg.evals += 1; agg.transitions += 2; agg.states += 1
+        try:
+            r = fn(sc)
+        except Exception:
+            agg.skipped["operation-raises"] += 1
+            continue
+        case = {"operand": kind, "form": form, "second_operand": ykind, "derivation": label, "steps": ["fingerprint() of every operand", "the derivation", "fingerprint() of the result"]}
+        items = r if isinstance(r, (list, tuple)) else [r]
+        for it in items[:6]:
+            if not purity.is_vec(it) or purity.is_row(it):
+                continue
+            if not is_table(it) and any(purity.is_vec(e) for e in it._underlying):
+                continue            # nested vectors: unit_nested
+            agg.compared += 1; agg.nontrivial += 1
+            try:
+                got, want = it.fingerprint(), rebuild_fp(it)
+            except Exception:
+                agg.skipped["fingerprint-or-rebuild-raises"] += 1
+                continue
+            if got != want:
+                agg.violation(V("fingerprint.catalogue." + purity._site(label), "result-of-a-primed-operand-differs-from-a-fresh-build", case))
+            else:
+                agg.outcomes["fingerprints-current"] += 1
+        if not live and not label.startswith("(write)"):
+            for nm, f0 in primed.items():
+                o = sc.objects[nm]
+                try:
+                    if o.fingerprint() != f0 and rebuild_fp(o) == f0:
+                        agg.violation(V("fingerprint.catalogue." + purity._site(label), "read-only-operation-changed-the-operands-fingerprint", dict(case, object=nm)))
+                except Exception:
+                    pass
     return agg
 
 
@@ -638,6 +740,9 @@ def check(ctx):
     for p in core.pmap(unit_containers, [("containers",)]):
         agg.merge(p)
     for p in core.pmap(unit_long, [("long", n) for n in (17, 32, 33, 64, 65, 129)]):
+        agg.merge(p)
+    from mc import purity
+    for p in core.pmap(unit_catalogue, [("cat", u[1], u[2], u[3]) for u in purity.plan(())]):
         agg.merge(p)
     ND = ctx.pick(4, 6)
     for p in core.pmap(unit_nested, [("nested", ev, ND) for ev in NESTED_EVENTS]):
